@@ -2,7 +2,7 @@
    [diffracts Om g tth eta]: Om.g = (-sin^2(theta), -sin(2theta) sin(eta)/2, sin(2theta) cos(eta)/2) (lib/OmegaSolve.v).
    find_omega_wedge: rotation matrix Ry(-wedge).Rz(omega) (GrainSpotter sign), see the wedge theorems below. *)
 From Coq Require Import Reals List.
-From XV Require Import RealLib Mat3 OmegaSolve Cell Gen_laue P09_laue P09_plain P09_quart P09_wedge.
+From XV Require Import RealLib Mat3 OmegaSolve Cell Gen_laue P09_laue P09_plain P09_quart P09_wedge P09_agree.
 Import ListNotations.
 Open Scope R_scope.
 
@@ -71,3 +71,11 @@ Print Assumptions C09_laue_wedge_complete.
 Theorem C09_wedge_matrix_is_rotation : forall wedge w, is_rot (wedge_mat wedge w).
 Proof. exact wedge_mat_rot. Qed.
 Print Assumptions C09_wedge_matrix_is_rotation.
+
+(* the solvers agree where their tilts coincide (zero tilt): the same set of omega from find_omega_general, find_omega_quart and
+   find_omega_wedge, and every omega of find_omega is among them *)
+Theorem C09_laue_zero_tilt_agreement : forall g tth, 0 < tth < PI -> vx g * vx g + vy g * vy g <> 0 -> forall oms1 etas1 oms2 etas2,
+  laue_find_omega_general g tth 0 0 = Some (oms1, etas1) -> laue_find_omega_quart g tth 0 0 = Some (oms2, etas2) ->
+  forall w, (In w oms1 <-> In w oms2) /\ (In w oms1 <-> In w (fst (laue_find_omega_wedge g tth 0))) /\ (In w (laue_find_omega g tth) -> In w oms1).
+Proof. exact zero_tilt_agreement. Qed.
+Print Assumptions C09_laue_zero_tilt_agreement.
